@@ -132,7 +132,15 @@ fn inv(op: &Op, _ctx: &dyn Context, operands: &mut dyn CoordinateSet) -> usize {
             // The authalic latitude: a²·qp is the squared radius of the full disc
             // (qp is also well defined for a sphere, where the closed form below is 0/0)
             let denom = a * a * qp;
-            let xi = ((-sign) * (1.0 - rho * rho / denom)).asin();
+            let sin_xi = (-sign) * (1.0 - rho * rho / denom);
+
+            // Outside the disc: flagged and not counted, as in the other aspects
+            if sin_xi.abs() > 1.0 {
+                debug!("LAEA: ({x}, {y}) outside domain");
+                operands.set_xy(i, f64::NAN, f64::NAN);
+                continue;
+            }
+            let xi = sin_xi.asin();
 
             let lon = lon_0 + (x - x_0).atan2(sign * (y - y_0));
             let lat = ellps.latitude_authalic_to_geographic(xi, &authalic);
